@@ -227,9 +227,84 @@ theorem rejects_indistinguishable (r : Raw) (x0 lb ub plb pub : List Ext)
   have := zip2_any_get (fun a b => Ext.le b a) _ _ i _ _ acc.distinguishable k1 k2
   simp only [hclose] at this; cases this
 
-/-- PARTIAL equivalence (the direction that holds): an accepted definition is never one the
+theorem ext_le_of_not_lt (a b : Ext) (ha : a.isNan = false) (hb : b.isNan = false) (h : Ext.lt a b = false) :
+    Ext.le b a = true := by
+  cases a <;> cases b <;> simp_all [Ext.lt, Ext.le, Ext.isNan]
+
+theorem ext_lt_of_not_le (a b : Ext) (ha : a.isNan = false) (hb : b.isNan = false) (h : Ext.le b a = false) :
+    Ext.lt a b = true := by
+  cases a <;> cases b <;> simp_all [Ext.lt, Ext.le, Ext.isNan]
+
+/-- One coordinate: the code's tests imply the property's sentence. -/
+theorem coordValid_of_checks (x0 lb ub plb pub : Ext)
+    (h1 : plb.isFinite = true) (h2 : pub.isFinite = true) (h3 : Ext.lt x0 lb = false) (h4 : Ext.lt ub x0 = false)
+    (h5 : Ext.le (effHi lb ub) (effLo lb ub) = false) (h6 : ordOK lb plb pub ub = true)
+    (h7 : ((lb.isFinite && !ub.isFinite) || (!lb.isFinite && ub.isFinite)) = false) :
+    coordValid x0 lb ub plb pub = true := by
+  simp only [ordOK, Bool.and_eq_true] at h6
+  obtain ⟨⟨h6a, h6b⟩, h6c⟩ := h6
+  have hlbn : lb.isNan = false := by cases lb <;> simp_all [Ext.le, Ext.isNan]
+  have hubn : ub.isNan = false := by cases ub <;> cases pub <;> simp_all [Ext.le, Ext.isNan]
+  have hx : (x0.isNan || (Ext.le lb x0 && Ext.le x0 ub)) = true := by
+    cases hxn : x0.isNan with
+    | true => rfl
+    | false =>
+      simp only [Bool.false_or, Bool.and_eq_true]
+      exact ⟨ext_le_of_not_lt x0 lb hxn hlbn h3, ext_le_of_not_lt ub x0 hubn hxn h4⟩
+  have heff : Ext.lt (effLo lb ub) (effHi lb ub) = true := by
+    apply ext_lt_of_not_le _ _ _ _ h5
+    · cases lb <;> cases ub <;> simp_all [effLo, esub, eadd, eneg, escale, Ext.isInf, Ext.isNan, Ext.isFinite]
+    · cases lb <;> cases ub <;> simp_all [effHi, esub, eadd, eneg, escale, Ext.isInf, Ext.isNan, Ext.isFinite]
+  have hb : ((lb.isFinite && ub.isFinite) || (lb.isInf && ub.isInf)) = true := by
+    cases lb <;> cases ub <;> simp_all [Ext.isFinite, Ext.isInf, Ext.isNan]
+  simp only [coordValid, h1, h2, h6a, h6b, h6c, hx, heff, hb, Bool.and_self]
+
+theorem zip5_all_of_checks : ∀ (x0 lb ub plb pub : List Ext),
+    lb.length = x0.length → ub.length = x0.length → plb.length = x0.length → pub.length = x0.length →
+    plb.all (·.isFinite) = true → pub.all (·.isFinite) = true →
+    anyB (zip2 Ext.lt x0 lb) = false → anyB (zip2 (fun x u => Ext.lt u x) x0 ub) = false →
+    anyB (zip2 (fun a b => Ext.le b a) (map2 effLo lb ub) (map2 effHi lb ub)) = false →
+    (zip4 ordOK lb plb pub ub).all id = true → halfAny lb ub = false →
+    (zip5 coordValid x0 lb ub plb pub).all id = true
+  | [], [], [], [], [], _, _, _, _, _, _, _, _, _, _, _ => rfl
+  | x :: xs, l :: ls, u :: us, p :: ps, q :: qs, hl, hu, hp, hq, hpf, hqf, h3, h4, h5, h6, h7 => by
+    simp only [List.length_cons, Nat.add_right_cancel_iff] at hl hu hp hq
+    simp only [List.all_cons, Bool.and_eq_true] at hpf hqf
+    simp only [zip2, anyB, List.any_cons, id, Bool.or_eq_false_iff, map2] at h3 h4 h5
+    simp only [zip4, List.all_cons, id, Bool.and_eq_true] at h6
+    simp only [halfAny, zip2, anyB, List.any_cons, id, Bool.or_eq_false_iff] at h7
+    simp only [zip5, List.all_cons, id, Bool.and_eq_true]
+    refine ⟨coordValid_of_checks x l u p q hpf.1 hqf.1 h3.1 h4.1 h5.1 h6.1 (by simp [h7.1.1, h7.1.2]), ?_⟩
+    exact zip5_all_of_checks xs ls us ps qs hl hu hp hq hpf.2 hqf.2 (by simpa [anyB] using h3.2) (by simpa [anyB] using h4.2)
+      (by simpa [anyB] using h5.2) h6.2 (by simpa [halfAny, anyB] using h7.2)
+  | [], _ :: _, _, _, _, hl, _, _, _, _, _, _, _, _, _, _ => by simp at hl
+  | [], [], _ :: _, _, _, _, hu, _, _, _, _, _, _, _, _, _ => by simp at hu
+  | [], [], [], _ :: _, _, _, _, hp, _, _, _, _, _, _, _, _ => by simp at hp
+  | [], [], [], [], _ :: _, _, _, _, hq, _, _, _, _, _, _, _ => by simp at hq
+  | _ :: _, [], _, _, _, hl, _, _, _, _, _, _, _, _, _, _ => by simp at hl
+  | _ :: _, _ :: _, [], _, _, _, hu, _, _, _, _, _, _, _, _, _ => by simp at hu
+  | _ :: _, _ :: _, _ :: _, [], _, _, _, hp, _, _, _, _, _, _, _, _ => by simp at hp
+  | _ :: _, _ :: _, _ :: _, _ :: _, [], _, _, _, hq, _, _, _, _, _, _, _ => by simp at hq
+
+/-- SOUND DIRECTION of "raises exactly when invalid": a definition the property's sentence calls
+    invalid is never accepted (equivalently: every accepted definition is valid or unspecified). -/
+theorem validate_ok_iff_valid_partial (r : Raw) (n : Norm) (h : validate r = .ok n) : specValid r ≠ some false := by
+  obtain ⟨x0, lb, ub, plb, pub, hp, acc⟩ := accepted_facts r n h
+  unfold specValid
+  simp only [hp]
+  obtain ⟨d1, d2, d3, d4⟩ := acc.dims
+  have hd : (lb.length != x0.length || ub.length != x0.length || plb.length != x0.length || pub.length != x0.length) = false := by
+    simp [d1, d2, d3, d4]
+  simp only [hd, Bool.false_eq_true, if_false]
+  split
+  · simp
+  · have := zip5_all_of_checks x0 lb ub plb pub d1 d2 d3 d4 acc.plausibleFinite.1 acc.plausibleFinite.2 acc.x0Inside.1 acc.x0Inside.2
+      acc.distinguishable acc.orderedInput acc.noHalf
+    simp [this]
+
+/-- The converse (the direction that fails): an accepted definition is never one the
     property calls invalid for a reason the theorems above cover; conversely NOT every valid
-    definition is accepted: -/
+    definition is accepted. -/
 theorem valid_but_rejected_counterexample :
     ∃ r : Raw, specValid r = some true ∧ validate r = .error .order2 := by
   refine ⟨{ x0 := none, lb := some [.fin (-2)], ub := some [.fin 0], plb := none, pub := some [.fin (-9999/5000)] }, ?_, ?_⟩ <;>
